@@ -36,13 +36,13 @@ def compile_ir(h, work):
     os.unlink(base + '.0.ll')
     return base + '.ll'
 
-def compile_obj(src, work):
+def compile_obj(src, work, extra=()):
     """one repository source -> object (ASan/UBSan), cached per run"""
     out = os.path.join(work, 'lib_' + src.replace('/', '_') + '.o')
     if os.path.exists(out): return out
     tmp = out + '.%d.tmp' % os.getpid()
     cmd = ['g++', '-std=c++17', '-O0', '-fsanitize=address,undefined', '-fno-sanitize-recover=all', '-D_GLIBCXX_ASSERTIONS', '-DCOLOQUINTE_VERIF',
-           '-I', os.path.join(REPO, 'src'), '-I', os.path.join(REPO, 'thirdparty'), '-w', '-c', os.path.join(REPO, 'src', src), '-o', tmp]
+           '-I', os.path.join(REPO, 'src'), '-I', os.path.join(REPO, 'thirdparty'), '-w', '-c', os.path.join(REPO, 'src', src), '-o', tmp] + list(extra)
     r = sh(cmd)
     if r.returncode != 0: raise RuntimeError('native build failed for %s:\n%s' % (src, r.stderr[-3000:]))
     os.replace(tmp, out)
@@ -169,7 +169,8 @@ def run_property(prop, harnesses, tier, seed, jobs, text, assumptions, design_re
             # compile IR + native in parallel
             futs_ir = {h['name']: pool.submit(compile_ir, h, work) for h in hs}
             allsrc = sorted(set(x for h in hs for x in h.get('native_srcs', [])))
-            futs_obj = {x: pool.submit(compile_obj, x, work) for x in allsrc}
+            libflags = sorted(set(f for h in hs for f in h.get('lib_flags', [])))   # e.g. -fsanitize=float-cast-overflow, which the IR traps but -fsanitize=undefined leaves out
+            futs_obj = {x: pool.submit(compile_obj, x, work, libflags) for x in allsrc}
             futs_nat = {}
             def native_of(h):
                 if h['name'] not in futs_nat:
